@@ -8,11 +8,18 @@ open LolHtml LolHtml.Model
 
 variable {κ : Type}
 
+/-- when the signal is a directive change, the machines (which `Parser.parse` stores) and the sinks are
+still related, with whatever flags -/
+def DirOk (δ : Nat) (K : Nat → κ → κ → Prop) (rs rw : M κ × Option Signal) : Prop :=
+  ∀ dr bm, rs.2 = some (.directive dr bm) →
+    ∃ ab'', MRel δ 0 0 ab'' .none rs.1 rw.1 ∧ K 0 rs.1.x.sink rw.1.x.sink
+
 /-- outcome of running the same action / action list / arm body in both runs. `must`: the signal stops
 the caller (written with `?`), so nothing is needed about the machines when there is one. -/
 def ActSim (δ : Nat) (K : Nat → κ → κ → Prop) (ab' : Ab) (must : Bool) (rs rw : M κ × Option Signal) : Prop :=
   (must = true ∧ SPanic rs.2) ∨ (SigRel δ 0 rs.2 rw.2 ∧
-    ((rs.2 = none ∨ must = false) → MRel δ 0 0 ab' .none rs.1 rw.1 ∧ K 0 rs.1.x.sink rw.1.x.sink))
+    ((rs.2 = none ∨ must = false) → MRel δ 0 0 ab' .none rs.1 rw.1 ∧ K 0 rs.1.x.sink rw.1.x.sink) ∧
+    DirOk δ K rs rw)
 
 def sigOf : Except Err Unit → Option Signal
   | .ok () => none
@@ -31,6 +38,11 @@ theorem lexEmitNonTag_eq (env : Env κ) (inp : Bytes) (c : Common) (l : LexRegs)
 theorem spanic_of_epanic {r : Except Err Unit} (h : EPanic r) : SPanic (sigOf r) := by
   match r, h with
   | .error (.panic _), _ => exact trivial
+
+theorem sigOf_ne_dir (r : Except Err Unit) (dr : Directive) (bm : Bookmark) : sigOf r ≠ some (.directive dr bm) := by
+  cases r with
+  | ok u => intro h; cases h
+  | error e => intro h; cases h
 
 theorem sigRel_of_res (δ : Nat) (r : Except Err Unit) : SigRel δ 0 (sigOf r) (sigOf r) := by
   match r with
@@ -95,13 +107,13 @@ theorem lexEmitNonTag_sim (hops : OpsSim env.ops inpS inpW δ K) {ab ab' : Ab} {
     exact ⟨rfl, spanic_of_epanic hpan⟩
   · right
     rw [hres]
-    refine ⟨sigRel_of_res δ _, fun _ => ⟨⟨hc, ?_, hsim, hpc⟩, hK'⟩⟩
+    refine ⟨sigRel_of_res δ _, fun _ => ⟨⟨hc, ?_, hsim, hpc⟩, hK'⟩, fun dr bm hh => absurd hh (sigOf_ne_dir _ dr bm)⟩
     exact hl.emitted hn es hle hp rfl rfl hfd htag hattr hnt
 
 /-- both runs leave the machine alone -/
 theorem ActSim.ret {ab' : Ab} {must : Bool} {ms mw : M κ} (h : MRel δ 0 0 ab' .none ms mw)
     (hK : K 0 ms.x.sink mw.x.sink) : ActSim δ K ab' must (ms, none) (mw, none) :=
-  Or.inr ⟨trivial, fun _ => ⟨h, hK⟩⟩
+  Or.inr ⟨trivial, fun _ => ⟨h, hK⟩, fun _ _ hh => by cases hh⟩
 
 /-- `emit_text`, possibly repaying a text debt -/
 theorem lexEmitText_sim (hops : OpsSim env.ops inpS inpW δ K) {d : Nat} {ab ab' : Ab} {cs cw : Common}
@@ -141,7 +153,7 @@ theorem lexEmitText_sim (hops : OpsSim env.ops inpS inpW δ K) {d : Nat} {ab ab'
       · exact Or.inl ⟨rfl, spanic_of_epanic hpan⟩
       · right
         rw [hres]
-        refine ⟨sigRel_of_res δ _, fun _ => ⟨⟨hc, ?_, hsim, hpc⟩, hK'⟩⟩
+        refine ⟨sigRel_of_res δ _, fun _ => ⟨⟨hc, ?_, hsim, hpc⟩, hK'⟩, fun dr bm hh => absurd hh (sigOf_ne_dir _ dr bm)⟩
         exact hl.emitted hn cs.pos (by omega) (fun _ => by omega) rfl (by simp only; omega) hl.fd
           (Or.inl ⟨rfl, rfl⟩) ⟨rfl, rfl⟩ (Or.inl ⟨rfl, rfl⟩)
     · rw [if_neg hgt]
@@ -150,7 +162,7 @@ theorem lexEmitText_sim (hops : OpsSim env.ops inpS inpW δ K) {d : Nat} {ab ab'
       · exact hpan.elim
       · right
         rw [hres]
-        refine ⟨trivial, fun _ => ⟨⟨hc, ?_, hsim, hpc⟩, hK'⟩⟩
+        refine ⟨trivial, fun _ => ⟨⟨hc, ?_, hsim, hpc⟩, hK'⟩, fun _ _ hh => by cases hh⟩
         exact hl.emitted hn ls.lexemeStart (by omega) (fun _ => by omega) rfl (by simp only; omega) hl.fd
           (Or.inl ⟨rfl, rfl⟩) ⟨rfl, rfl⟩ (Or.inl ⟨rfl, rfl⟩)
 
@@ -169,7 +181,7 @@ theorem andThen_sim {ab1 ab2 : Ab} {rs rw : M κ × Option Signal} {gs gw : M κ
     (hg : ∀ ms mw, MRel δ 0 0 ab1 .none ms mw → K 0 ms.x.sink mw.x.sink → ActSim δ K ab2 true (gs ms) (gw mw)) :
     ActSim δ K ab2 true (andThen rs gs) (andThen rw gw) := by
   unfold andThen
-  rcases h with ⟨_, hp⟩ | ⟨hs, hm⟩
+  rcases h with ⟨_, hp⟩ | ⟨hs, hm, hdir⟩
   · left
     refine ⟨rfl, ?_⟩
     revert hp
@@ -189,10 +201,12 @@ theorem andThen_sim {ab1 ab2 : Ab} {rs rw : M κ × Option Signal} {gs gw : M κ
       | some s' =>
         rw [hrw] at hs
         right
-        refine ⟨hs, fun hh => ?_⟩
-        rcases hh with hh | hh
-        · cases hh
-        · cases hh
+        refine ⟨hs, fun hh => ?_, fun dr bm hh => ?_⟩
+        · rcases hh with hh | hh
+          · cases hh
+          · cases hh
+        · simp only at hh
+          exact hdir dr bm (by rw [hrs]; exact hh)
 
 /-- `emit_eof` -/
 theorem lexEmitEof_sim (hops : OpsSim env.ops inpS inpW δ K) {ab : Ab} {ms mw : M κ}
@@ -381,10 +395,10 @@ theorem lexEmitTagLexeme_sim (hops : OpsSim env.ops inpS inpW δ K) {ab ab' : Ab
     rw [hres]
     generalize (env.ops.handleTag inpS ⟨xs.prevConsumed, ⟨ls.lexemeStart, es⟩, t⟩ xs.sink).2 = r
     match r with
-    | .error e => exact ⟨rfl, fun hh => by rcases hh with hh | hh <;> cases hh⟩
-    | .ok .lex => exact ⟨trivial, fun _ => ⟨⟨hc, hl', rfl, hpc⟩, hK'⟩⟩
+    | .error e => exact ⟨rfl, (fun hh => by rcases hh with hh | hh <;> cases hh), fun _ _ hh => by cases hh⟩
+    | .ok .lex => exact ⟨trivial, fun _ => ⟨⟨hc, hl', rfl, hpc⟩, hK'⟩, fun _ _ hh => by cases hh⟩
     | .ok .scan =>
-      refine ⟨⟨rfl, ?_⟩, fun hh => by rcases hh with hh | hh <;> cases hh⟩
+      refine ⟨⟨rfl, ?_⟩, (fun hh => by rcases hh with hh | hh <;> cases hh), fun _ _ _ => ⟨ab', ⟨hc, hl', rfl, hpc⟩, hK'⟩⟩
       exact ⟨hc.cdataAllowed, hc.lastTextType, hc.lastStartTagNameHash, rfl, rfl⟩
 
 /-- `emit_tag` -/
@@ -406,7 +420,7 @@ theorem lexEmitTag_sim (F : Frame inpS inpW δ) (hops : OpsSim env.ops inpS inpW
     rw [hts] at htag
     cases htw : lw.curTag with
     | some t' => rw [htw] at htag; exact htag.elim
-    | none => exact Or.inr ⟨rfl, fun hh => by rcases hh with hh | hh <;> cases hh⟩
+    | none => exact Or.inr ⟨rfl, (fun hh => by rcases hh with hh | hh <;> cases hh), fun _ _ hh => by cases hh⟩
   | some t =>
     rw [hts] at htag
     cases htw : lw.curTag with
@@ -421,7 +435,7 @@ theorem lexEmitTag_sim (F : Frame inpS inpW δ) (hops : OpsSim env.ops inpS inpW
       simp only
       rw [hsim, hl.fd, lexGetFeedback_sh]
       cases hfb : lexGetFeedback env.cfg xs.sim ls.fd t with
-      | error e => exact Or.inr ⟨rfl, fun hh => by rcases hh with hh | hh <;> cases hh⟩
+      | error e => exact Or.inr ⟨rfl, (fun hh => by rcases hh with hh | hh <;> cases hh), fun _ _ hh => by cases hh⟩
       | ok sf =>
         simp only
         have hc1 : CRel δ 0 { cs with lastTextType := .data } { cw with lastTextType := .data } :=
@@ -449,10 +463,10 @@ theorem lexEmitTag_sim (F : Frame inpS inpW δ) (hops : OpsSim env.ops inpS inpW
           intro as aw happ
           match as, aw, happ with
           | .error (.panic _), _, _ => exact Or.inl ⟨rfl, trivial⟩
-          | .error (.ambiguity _), .error _, h => cases h; exact Or.inr ⟨rfl, fun hh => by rcases hh with hh | hh <;> cases hh⟩
-          | .error .handler, .error _, h => cases h; exact Or.inr ⟨rfl, fun hh => by rcases hh with hh | hh <;> cases hh⟩
-          | .error .mem, .error _, h => cases h; exact Or.inr ⟨rfl, fun hh => by rcases hh with hh | hh <;> cases hh⟩
-          | .error (.internal _), .error _, h => cases h; exact Or.inr ⟨rfl, fun hh => by rcases hh with hh | hh <;> cases hh⟩
+          | .error (.ambiguity _), .error _, h => cases h; exact Or.inr ⟨rfl, (fun hh => by rcases hh with hh | hh <;> cases hh), fun _ _ hh => by cases hh⟩
+          | .error .handler, .error _, h => cases h; exact Or.inr ⟨rfl, (fun hh => by rcases hh with hh | hh <;> cases hh), fun _ _ hh => by cases hh⟩
+          | .error .mem, .error _, h => cases h; exact Or.inr ⟨rfl, (fun hh => by rcases hh with hh | hh <;> cases hh), fun _ _ hh => by cases hh⟩
+          | .error (.internal _), .error _, h => cases h; exact Or.inr ⟨rfl, (fun hh => by rcases hh with hh | hh <;> cases hh), fun _ _ hh => by cases hh⟩
           | .ok a, .ok b, ⟨hab, hsims, hnpa⟩ =>
             simp only
             obtain ⟨hst1, hst2, hst3⟩ := lexStampTag_sh hab a.2 t
